@@ -439,7 +439,7 @@ pub fn run_c04(ctx: &RunCtx) {
     });
     ctx.mark_exhaustive(format!("context matrix: {} (form, position) programs x 2 layouts", cases.len()));
     // random programs
-    let n = ctx.pick(150_000u64, 10_000_000u64);
+    let n = ctx.pick(400_000u64, 10_000_000u64);
     ctx.random("program", n, 900, |src| {
         let style = [Style::Minimal, Style::Spaced, Style::Wild, Style::Wild][src.below(4)];
         let mut g = Gen::new(src, Switches::all_on());
@@ -648,7 +648,7 @@ pub fn run_c05(ctx: &RunCtx) {
     });
 
     // (ii) random expression trees
-    let n = ctx.pick(150_000u64, 10_000_000u64);
+    let n = ctx.pick(400_000u64, 10_000_000u64);
     ctx.random("expr-tree", n, 300, |src| {
         let mut sw = Switches::all_on();
         sw.paren_mixed_precedence = false;
@@ -669,7 +669,7 @@ pub fn run_c05(ctx: &RunCtx) {
         rep
     });
     // (iii-b) random programs
-    let n = ctx.pick(100_000u64, 5_000_000u64);
+    let n = ctx.pick(300_000u64, 5_000_000u64);
     ctx.random("program", n, 900, |src| {
         let style = [Style::Minimal, Style::Spaced, Style::Wild][src.below(3)];
         let mut sw = Switches::all_on();
@@ -958,7 +958,7 @@ pub fn run_c16(ctx: &RunCtx) {
     });
     ctx.mark_exhaustive(format!("all ordered pairs of {nf} statement forms x {} contexts", CONTEXTS.len()));
     // random sequences (alias and empty statements excluded: covered by the pair enumeration)
-    let n = ctx.pick(60_000u64, 5_000_000u64);
+    let n = ctx.pick(300_000u64, 5_000_000u64);
     ctx.random("sequence", n, 900, |src| {
         let ci = src.below(CONTEXTS.len());
         let len = 2 + src.below(11);
